@@ -303,7 +303,7 @@ func Run(ctx *common.Ctx) int {
 			s, n int
 			out  string
 		}
-		cfgs := []cfg{{1, 20000, ""}, {7, 20000, "rel"}, {300, 20000, "nested/x/y"}, {7, 4096, "abs"}, {1, 1000000, "rel"}, {5, 1000000, ""}}
+		cfgs := []cfg{{1, 20000, ""}, {7, 20000, "rel"}, {300, 20000, "nested/x/y"}, {7, 4096, "abs"}, {1, 1000000, "rel"}, {5, 1000000, ""}, {6, 20000, "samples.bin"}, {3, 20000, "round1/batch.dat"}}
 		if !quick {
 			cfgs = append(cfgs, cfg{300, 4096, ""}, cfg{33, 1000000, "abs"})
 		}
